@@ -3,10 +3,10 @@
 
    JSON: fmtf / parsef stand for strconv.FormatFloat(v,'f',-1,64) / strconv.ParseFloat (external
    code: Section variables); numbers are float64 bit patterns. *)
-From Coq Require Import List NArith Bool.
+From Coq Require Import List NArith ZArith Bool String.
 From Coq.Strings Require Import Byte.
 Import ListNotations.
-From OV Require Import Base.Bytes Base.Tree Model.Json Model.Xml Proofs.Json Proofs.Xml Proofs.XmlScope Proofs.XmlLastWins.
+From OV Require Import Base.Bytes Base.Tree Model.Json Model.Xml Proofs.Json Proofs.Xml Proofs.XmlScope Proofs.XmlLastWins Proofs.JsonXmlFacts Gen.C08Facts.
 
 Section C08Json.
   Variable fmtf : N -> bytes.
@@ -29,12 +29,100 @@ Section C08Json.
     option_map (j2iface parsef true) (jbuild fmtf (jtokens v)) = Some v.
   Proof. exact (json_roundtrip fmtf parsef). Qed.
 
+  (* For EVERY value v, WITHOUT the hypothesis on keys (numbers surviving strconv): the converter
+     returns jfold v - members of equal name are folded, at every level, into one array at the
+     position of the first occurrence, in member order; this is what the code does with
+     duplicate keys (encoding/json keeps the last member instead: such values are outside the
+     property).  json_fold_identity: for pairwise distinct keys jfold is the identity, which
+     gives json_roundtrip again. *)
+  Theorem json_convert_fold : forall v,
+    jnums (fun k => parsef (fmtf k) = k) v ->
+    option_map (j2iface parsef true) (jbuild fmtf (jtokens v)) = Some (jfold v).
+  Proof. exact (json_convert_fold fmtf parsef). Qed.
+
+  (* null, [], {}, "", true, false come back from copy unchanged - no hypothesis at all *)
+  Theorem copy_empty_values : forall v,
+    In v [JNull; JArr []; JObj []; JStr []; JBool true; JBool false] ->
+    option_map (copy_func parsef) (jbuild fmtf (jtokens v)) = Some v.
+  Proof. exact (copy_empty_values fmtf parsef). Qed.
+
   (* ... hence the copy custom function reproduces a JSON record as an equal JSON value. *)
   Corollary copy_roundtrip : forall v,
     jwf v = true -> jnums (fun k => parsef (fmtf k) = k) v ->
     option_map (copy_func parsef) (jbuild fmtf (jtokens v)) = Some v.
   Proof. exact (copy_roundtrip fmtf parsef). Qed.
 End C08Json.
+
+Theorem json_fold_identity : forall v, jwf v = true -> jfold v = v.
+Proof. exact jfold_wf. Qed.
+
+(* XML, token by token, for EVERY reader state with a current node:
+   - a CharData token (text, entity-decoded text, one CDATA section, also an EMPTY one) adds exactly
+     one TextNode child holding exactly its bytes and changes nothing else;
+   - consecutive CharData tokens stay separate nodes in order (never merged, never dropped);
+   - comments, processing instructions and directives change nothing; an EndElement creates no node;
+   - an accepted StartElement pushes one element whose children are exactly one AttributeNode per
+     attribute in token order, each with one text child holding the value (also the empty value). *)
+Theorem xml_chardata_token : forall top below m st s,
+  xstep (mkXS (top :: below) m st) (XTChar s) =
+  (mkXS (xf_add top (T TextNode s (FXml [] []) []) :: below) m st, None).
+Proof. exact xstep_chardata. Qed.
+
+Theorem xml_consecutive_chardata : forall ss top below m st,
+  xfeed (mkXS (top :: below) m st) (map XTChar ss) =
+  mkXS (mkXF (xf_ty top) (xf_data top) (xf_pfx top) (xf_uri top)
+             (rev (map (fun s => T TextNode s (FXml [] []) []) ss) ++ xf_kids top) :: below) m st.
+Proof. exact xfeed_chardata. Qed.
+
+Theorem xml_skipped_tokens : forall s, xstep s XTOther = (s, None).
+Proof. exact xstep_other. Qed.
+
+Theorem xml_end_element_no_node : forall s sp l s' o,
+  xstep s (XTEnd sp l) = (s', o) -> List.length (xs_stack s') <= List.length (xs_stack s).
+Proof. exact xstep_end_no_new_node. Qed.
+
+Theorem xml_start_element_attributes : forall top below m st sp loc attrs s',
+  xstep (mkXS (top :: below) m st) (XTStart sp loc attrs) = (s', None) ->
+  exists p u l,
+    xs_stack s' = mkXF ElementNode loc p u (rev l) :: top :: below /\
+    node_space (FXml p u) = sp /\ Forall2 attr_node_of attrs l /\ lead_attrs l = attrs.
+Proof. exact xstep_start_element. Qed.
+
+(* One reader per document: a run over a sequence of documents is the map of the single-document
+   run - nothing of an earlier document (a failed one included) reaches a later one.  Assumes
+   that the only process-wide state, the node pool, hands out nodes indistinguishable from new
+   ones (C12); the good,bad,good sequences of the harness check that on the implementation. *)
+Theorem xml_docs_independent : forall docs i,
+  nth_error (xbuild_all docs) i = option_map xbuild (nth_error docs i).
+Proof. exact xml_docs_independent. Qed.
+
+(* The constants and tables the model transcribes by hand are the ones extracted from /repo on
+   this run (coq/Gen/C08Facts.v): JSONType flags, addTextChild's table (numbers are written with
+   strconv.FormatFloat(v,'f',-1,64) and read back with ParseFloat(_,64)), the JSON root node, the
+   xml.Decoder the XML reader uses (strict encoding/xml decoder, CharsetReader =
+   x/net/html/charset.NewReaderLabel, nothing else changed) and its initial namespace table. *)
+Theorem c08_extracted_facts :
+  json_flags =
+    [("JSONRoot"%string, JSONRoot); ("JSONObj"%string, JSONObj); ("JSONArr"%string, JSONArr);
+     ("JSONProp"%string, JSONProp); ("JSONValueStr"%string, JSONValueStr);
+     ("JSONValueNum"%string, JSONValueNum); ("JSONValueBool"%string, JSONValueBool);
+     ("JSONValueNull"%string, JSONValueNull); ("jsonTypeEnd"%string, 256%N)]
+  /\ text_child_table =
+    [(TkBool, FmtBool, "JSONValueBool"%string); (TkDefault, FmtString, "JSONValueStr"%string);
+     (TkFloat64, FmtFloat "f"%string (-1)%Z 64%N, "JSONValueNum"%string);
+     (TkNil, FmtEmpty, "JSONValueNull"%string)]
+  /\ parse_float_bits = 64%N
+  /\ map (fun f => (jf_ty f, jf_data f, jf_flags f, jf_kids f)) (js_stack jinit)
+     = [(DocumentNode, [], gen_flag json_root_flag, [])]
+  /\ xml_decoder_ctor = "encoding/xml.NewDecoder"%string
+  /\ xml_decoder_settings = [("CharsetReader"%string, "golang.org/x/net/html/charset.NewReaderLabel"%string)]
+  /\ xml_init_space2prefix = xs_map xinit.
+Proof.
+  split; [exact json_flags_extracted|]. split; [exact (proj1 json_text_child_extracted)|].
+  split; [exact (proj1 (proj2 json_text_child_extracted))|]. split; [exact json_root_extracted|].
+  split; [exact (proj1 xml_decoder_extracted)|]. split; [exact (proj1 (proj2 xml_decoder_extracted))|].
+  exact (proj1 (proj2 (proj2 xml_decoder_extracted))).
+Qed.
 
 (* XML, faithfulness: for EVERY token list (any names, namespaces, nesting; well-formed or not)
    on which the first Read with target "." returns a node: the token view of the document tree
